@@ -48,3 +48,14 @@ void X__ZNSt7__cxx1112basic_stringIcSt11char_traitsIcESaIcEE9_M_mutateEmmPKcm(ui
   __CPROVER_assert(0, "MODEL: string growth beyond the SSO capacity (_M_mutate)");
   __CPROVER_assume(0);
 }
+
+#ifdef VK_STUB_TO_ASCII
+/* ada::unicode::to_ascii (percent-decode + IDNA): hosts that need it are OUTSIDE the host-setter queries; the path is
+ * cut silently (the evidence lists this cut).  Hosts that are lower-case ASCII without forbidden code points, '%' or
+ * "xn-" never reach it (parse_host's fast path). */
+uint8_t X__ZN3ada7unicode8to_asciiERSt8optionalINSt7__cxx1112basic_stringIcSt11char_traitsIcESaIcEEEESt17basic_string_viewIcS5_Em(uint8_t* out, uint64_t len, uint8_t* data, uint64_t first_percent) {
+  (void)out; (void)len; (void)data; (void)first_percent;
+  __CPROVER_assume(0);
+  return 0;
+}
+#endif
